@@ -499,4 +499,11 @@ class Update(Spec):
             )
         if not info.get("diff") and not info.get("vdiff"):
             out.append(("C11/C14: no random draw when the diffusion coefficients are zero", t["rng"].draws == 0))
+        # C14: non-interference, decided structurally on the symbolic post-state of the real code
+        from pyvc.spec import own_index_only
+
+        pp = z3.Int("p_own")
+        names = {"st_" + k for k in ("pid", "X", "Y", "Z", "alive", "active")} | {"force_w", "xi1", "xi2", "xi3"}
+        ok = all(own_index_only(v[k].fn(pp), pp, names) for k in ("X", "Y", "Z", "alive", "active", "pid") if isinstance(v.get(k), Arr))
+        out.append(("C14: element p of every state variable after the step depends on particle p's own data only (no read of another particle, no reduction over particles)", ok))
         return out
